@@ -11,6 +11,7 @@ package main
 import (
 	"fmt"
 	"go/ast"
+	"go/constant"
 	"go/types"
 	"sort"
 	"strconv"
@@ -315,16 +316,36 @@ func rtLineColSemantics(a *aggregator, v *rtView, maxLen int) {
 	var bad []string
 	und := ""
 	n := 0
-	for l := 0; l <= maxLen && und == ""; l++ {
-		for mask := 0; mask < 1<<l && und == ""; mask++ {
-			text := make([]rune, l)
-			for i := range text {
-				if mask&(1<<i) != 0 {
-					text[i] = '\n'
-				} else {
-					text[i] = 'x'
-				}
+	// the alphabet: newline, an ordinary rune, and every other rune the function
+	// itself singles out by comparing with a constant (none today; a carriage
+	// return treated as a line break would show up here)
+	alphabet := []rune{'x', '\n'}
+	for _, r := range runeConstantsIn(it, fd) {
+		if r != '\n' && r != 'x' && r >= 0 && r < endSymbol {
+			alphabet = append(alphabet, r)
+		}
+	}
+	if len(alphabet) > 4 {
+		maxLen = 4
+	}
+	var texts [][]rune
+	var gen func(prefix []rune, l int)
+	gen = func(prefix []rune, l int) {
+		texts = append(texts, append([]rune{}, prefix...))
+		if l == 0 {
+			return
+		}
+		for _, r := range alphabet {
+			gen(append(prefix, r), l-1)
+		}
+	}
+	gen(nil, maxLen)
+	for range 1 {
+		for _, text := range texts {
+			if und != "" {
+				break
 			}
+			l := len(text)
 			buf := append(append([]rune{}, text...), endSymbol)
 			for b := 0; b <= l; b++ {
 				for e := b; e <= l; e++ {
@@ -383,7 +404,41 @@ func rtLineColSemantics(a *aggregator, v *rtView, maxLen int) {
 		bad = append(bad[:3], fmt.Sprintf("… %d more", len(bad)-3))
 	}
 	a.Decide(len(bad) == 0 && n > 100, "R-linecol-semantics", construct, cfg, pos,
-		fmt.Sprintf("%d evaluations: every text of at most %d runes over {newline, other} followed by the end symbol, every offset pair begin ≤ end ≤ len: each offset is translated to its definitional line and column, no panic", n, maxLen), strings.Join(bad, "; "))
+		fmt.Sprintf("%d evaluations: every text of at most %d runes over {newline, other, and any rune the function compares with} followed by the end symbol, every offset pair begin ≤ end ≤ len: each offset is translated to its definitional line and column, no panic", n, maxLen), strings.Join(bad, "; "))
+}
+
+// runeConstantsIn: constants that a function compares rune-typed values with.
+func runeConstantsIn(it *Interp, fd *ast.FuncDecl) []rune {
+	seen := map[rune]bool{}
+	var out []rune
+	ast.Inspect(fd, func(n ast.Node) bool {
+		var exprs []ast.Expr
+		switch x := n.(type) {
+		case *ast.BinaryExpr:
+			exprs = []ast.Expr{x.X, x.Y}
+		case *ast.CaseClause:
+			exprs = x.List
+		default:
+			return true
+		}
+		for _, e := range exprs {
+			tv, ok := it.info.Types[e]
+			if !ok || tv.Value == nil {
+				continue
+			}
+			b, ok := tv.Type.Underlying().(*types.Basic)
+			if !ok || (b.Kind() != types.Int32 && b.Kind() != types.UntypedRune) {
+				continue
+			}
+			if v, ok := constant.Int64Val(constant.ToInt(tv.Value)); ok && !seen[rune(v)] {
+				seen[rune(v)] = true
+				out = append(out, rune(v))
+			}
+		}
+		return true
+	})
+	sort.Slice(out, func(i, j int) bool { return out[i] < out[j] })
+	return out
 }
 
 // rtEvalHere: the evaluated functions do not depend on HasActions/HasDot/
@@ -640,6 +695,19 @@ func rtPrintSemantics(a *aggregator, v *rtView, budget int) {
 	text := []rune("aé世\"\n𝄞bcdefghij")
 	var next int
 	shapes := genTrees(budget, 0, &next)
+	// deep derivations: a chain of single-child nodes (depth 12, 70, 300), and one
+	// whose innermost node has two children — indentation must follow the depth
+	for _, depth := range []int{12, 70, 300} {
+		for len(text) < 2*depth+3 {
+			text = append(text, 'p', 'é')
+		}
+		var inner *dnode = &dnode{begin: depth, end: depth + 1}
+		inner = &dnode{begin: depth - 1, end: depth + 2, kids: []*dnode{{begin: depth - 1, end: depth}, inner, {begin: depth + 1, end: depth + 2}}}
+		for d := depth - 2; d >= 0; d-- {
+			inner = &dnode{begin: d, end: 2*depth + 1 - d, kids: []*dnode{inner}}
+		}
+		shapes = append(shapes, inner)
+	}
 	var bad []string
 	n := 0
 	for _, sh := range shapes {
@@ -712,5 +780,5 @@ func rtPrintSemantics(a *aggregator, v *rtView, budget int) {
 		bad = append(bad[:3], fmt.Sprintf("… %d more", len(bad)-3))
 	}
 	a.Decide(len(bad) == 0 && n > 100, "R-print-semantics", construct, cfg, pos,
-		fmt.Sprintf("%d derivations over a text with 2-, 3- and 4-byte runes, a quote and a newline: the printed tree is the pre-order list of non-empty tokens, one per line, indented by depth, each with its rule's name and the quoted runes [begin,end)", n), strings.Join(bad, "; "))
+		fmt.Sprintf("%d derivations over a text with 2-, 3- and 4-byte runes, a quote and a newline: plus chains of depth 12, 70 and 300: the printed tree is the pre-order list of non-empty tokens, one per line, indented by depth, each with its rule's name and the quoted runes [begin,end)", n), strings.Join(bad, "; "))
 }
